@@ -768,7 +768,8 @@ def tail(rng, sh, extra_obs, first=False, force=None, base_obs=()):
             # the blueprint a channel was filled from gets another sample rate and is added to the same channel again
             e = rng.choice(els)
             bch = [v for v in sh.E[e]["chans"].values() if v[0] == "bp" and v[2] and v[2].get("reg") is not None and v[2].get("sr")
-                   and sh.B.get(v[2]["reg"], {}).get("names") == v[2]["names"] and not sh.B[v[2]["reg"]].get("marked")]
+                   and sh.B.get(v[2]["reg"], {}).get("names") == v[2]["names"] and not sh.B[v[2]["reg"]].get("marked")
+                   and "waituntil" not in sh.B[v[2]["reg"]].get("fns", [])]          # a wait target is a time too: 1.8 s is 22.5 samples at 12.5 Sa/s
             if bch:
                 v = rng.choice(bch)
                 # a new rate at which every duration of that blueprint stays well away from a rounding tie (durations made
